@@ -403,9 +403,32 @@ func runC02(c *Ctx) {
 		ml := c.Fn("agreement.Service.mainLoop")
 		submitTop := c.Func("agreement.rootRouter.submitTop")
 		pf := c.Fields("agreement.Service.persistRouter", "agreement.Service.persistStatus", "agreement.Service.persistActions")
-		stores := StoresToField(ml, false, pf)
-		c.MustGuard(MustGuardSpec{Rule: "R02.5", Fn: ml, Effects: stores, EffName: "store(persist*)", Guards: []Guard{GBool("persistent(a)", ResultOf(0, c.Func("agreement.persistent")), true)}})
 		st := CallsTo(ml, false, submitTop)
+		// the snapshot taken in the event loop (after submitTop); the one-off seeding of the
+		// snapshot from the restored crash state before the loop is R02.7's subject
+		var stores []ssa.Instruction
+		for _, s := range StoresToField(ml, false, pf) {
+			if len(st) == 1 && !Dominates(st[0], s) {
+				continue
+			}
+			stores = append(stores, s)
+		}
+		if len(stores) > 0 && len(st) == 1 {
+			// guard relative to the loop body: from the submitTop call on, the stores need persistent(a)
+			edges, matched := PassEdges(ml, GBool("persistent(a)", ResultOf(0, c.Func("agreement.persistent")), true))
+			okG := matched > 0
+			if okG {
+				r := NewReachFromBlock(st[0].Block(), edges, nil)
+				for _, s := range stores {
+					if r.Reaches(s) {
+						okG = false
+					}
+				}
+			}
+			c.Check(okG, "R02.5", "agreement.Service.mainLoop:store(persist*)<=persistent(a)", c.Pos(stores[0].Pos()), "after submitTop the snapshot fields are stored only past persistent(a)")
+		} else {
+			c.Unk("R02.5", "agreement.Service.mainLoop:store(persist*)<=persistent(a)", c.Pos(ml.Pos()), "no snapshot store after submitTop found")
+		}
 		if len(st) != 1 {
 			c.Unk("R02.5", "agreement.Service.mainLoop:submitTop", c.Pos(ml.Pos()), "expected one submitTop call, found "+itoa(len(st)))
 		} else {
